@@ -78,6 +78,13 @@ fn main() {
                 }
             }
         }
+        "ids" => match stress::ids(&kv["out"], num("threads", 600) as usize) {
+            Ok(c) => c,
+            Err(e) => {
+                eprintln!("harness error: {e}");
+                2
+            }
+        },
         "stress" => {
             let opts = stress::Opts {
                 cancelable: kv.contains_key("cancelable"),
